@@ -7,6 +7,8 @@ running sums, an AST walk instead of code generation.  Part of the trusted base.
 """
 from fractions import Fraction
 
+from . import qast
+
 
 class EvalError(Exception):
     """An expression cannot be evaluated on this record (the engine must report a query-execution error naming the record)."""
@@ -160,6 +162,13 @@ def ev(e, env):
         return ev(e[1], env)[e[2]]
     if t == 'paren':
         return ev(e[1], env)
+    if t == 'uvar':
+        return qast.UVARS[e[1]]
+    if t == 'floordiv':
+        x, y = _num(ev(e[1], env), 'arith'), _num(ev(e[2], env), 'arith')
+        if y == 0:
+            raise EvalError('zero', 'division by zero')
+        return x // y
     if t == 'int_of':
         x = ev(e[1], env)
         try:
@@ -286,6 +295,8 @@ def header_names(q, a_names, b_names):
                 out.append('col%d' % (len(out) + 1))
         elif k == 'expr' and it['expr'][0] in ('NR', 'NF', 'aNR', 'bNR', 'NU'):
             out.append(it['expr'][0])
+        elif k == 'expr' and it['expr'][0] == 'uvar':
+            out.append(it['expr'][1])
         else:
             out.append('col%d' % (len(out) + 1))
     return out
